@@ -95,6 +95,8 @@ def plan(tier, seed):
         for phase in ("first", "incremental"):
             for mode in ("fail", "kill_truncate"):
                 cases.append({"id": f"cbdt-{phase}-pngquant-binary-emoji_u41.png-{mode}", "kind": "fault", "fmt": "cbdt", "phase": phase, "fault": f"pngquant|emoji_u41.png|{mode}"})
+                # ... and the last step of the bitmap chain (its output is what the font embeds)
+                cases.append({"id": f"cbdt-{phase}-zopfli-emoji_u1f600.png-{mode}", "kind": "fault", "fmt": "cbdt", "phase": phase, "fault": f"zopfli.png|emoji_u1f600.png|{mode}"})
     cases += [{"id": f"vf-{op}", "kind": "vf-edit", "op": op} for op in VF_OPS]
     cases += [{"id": f"{seed}-hist{i}", "kind": "history", "i": i} for i in range(NHIST[tier])]
     return cases
